@@ -125,6 +125,9 @@ fn tab_step_2x3() {
 fn stub_iterable_fmt(_s: &crate::IterableKind, _f: &mut std::fmt::Formatter<'_>) -> std::fmt::Result {
     Ok(())
 }
+fn stub_format(_a: std::fmt::Arguments<'_>) -> String {
+    String::new()
+}
 fn idx_shape() -> crate::IterableKind {
     use crate::IterableKind as K;
     K::Iterables(vec![K::Integers(vec![1, 2]), K::Integers(vec![3])])
@@ -143,6 +146,7 @@ macro_rules! idx_harness {
         #[kani::proof]
         #[kani::unwind(5)]
         #[kani::stub(<crate::primitives::iterable::IterableKind as std::fmt::Display>::fmt, stub_iterable_fmt)]
+        #[kani::stub(alloc::fmt::format, stub_format)]
         fn $name() {
             let a = idx_shape();
             let i: [usize; 3] = kani::any();
